@@ -957,7 +957,12 @@ func RunC07(t *testing.T, plan *Plan, st *core.Stream, extra Extra, keepLog bool
 			res.Stats["benign_corruption_rejected"] = 1
 		}
 	}
-	if retryDone && len(res.Violations) == 0 && res.HarnessErr == "" {
+	if retryDone && len(res.Violations) == 0 && res.HarnessErr == "" && err == nil {
+		// the first Get succeeded: what it returned is what the source said
+		// (an undetectable change, e.g. another hash on the last block of the
+		// range, included), and the cache may serve exactly that again
+		res.Stats["retry_after_success_not_judged"] = 1
+	} else if retryDone && len(res.Violations) == 0 && res.HarnessErr == "" {
 		res.Stats["retry_cases"] = 1
 		if err2 != nil {
 			res.Stats["retry_failed"] = 1
